@@ -19,7 +19,7 @@ def cases(tier, rng):
         for run in [None] + list(range(0, k + 3)):
             for ml in [None] + list(range(1, k + 3)):
                 yield {"kind": "ctor", "k": k, "run": run, "motif_len": ml, "nt": True}
-    reps = 3 if tier == "quick" else 25
+    reps = 6 if tier == "quick" else 25
     for i in range(len(gen.FILTER_GRID)):
         for t in (1, 2, 3, 4):
             for rep in range(reps):
